@@ -967,6 +967,10 @@ func mustFail(key string, s *side, extra map[string]any) {
 			d[k] = v
 		}
 		viol(key+" :handshake-accepted", d)
+	case strings.HasPrefix(key, "H/inflight-flip"):
+		// whether B sees A's (undecryptable) auth frame or A's EOF first depends on A's own writer/reader task
+		// order inside async.Parallel: the rejection is certain, its error text is not -> one coarse class
+		r.Outcome("H:inflight-flip->rejected")
 	default:
 		r.Outcome("H:" + strings.Fields(key)[0][2:] + "->" + errClass(s.err))
 	}
